@@ -279,12 +279,21 @@ func (s *ProxySession) SubscriberClosed(subscriber signaling.McuSubscriber) {
 	}
 }
 
-func (s *ProxySession) StorePublisher(ctx context.Context, id string, publisher signaling.McuPublisher) {
+// StorePublisher remembers the publisher as owned by the session. It returns
+// false if the session was closed in the meantime, the publisher is not stored
+// then and must be closed by the caller.
+func (s *ProxySession) StorePublisher(ctx context.Context, id string, publisher signaling.McuPublisher) bool {
 	s.publishersLock.Lock()
 	defer s.publishersLock.Unlock()
 
+	if s.ctx.Err() != nil {
+		// Session was closed while the publisher was created.
+		return false
+	}
+
 	s.publishers[id] = publisher
 	s.publisherIds[publisher] = id
+	return true
 }
 
 func (s *ProxySession) DeletePublisher(publisher signaling.McuPublisher) string {
@@ -303,12 +312,21 @@ func (s *ProxySession) DeletePublisher(publisher signaling.McuPublisher) string 
 	return id
 }
 
-func (s *ProxySession) StoreSubscriber(ctx context.Context, id string, subscriber signaling.McuSubscriber) {
+// StoreSubscriber remembers the subscriber as owned by the session. It returns
+// false if the session was closed in the meantime, the subscriber is not stored
+// then and must be closed by the caller.
+func (s *ProxySession) StoreSubscriber(ctx context.Context, id string, subscriber signaling.McuSubscriber) bool {
 	s.subscribersLock.Lock()
 	defer s.subscribersLock.Unlock()
 
+	if s.ctx.Err() != nil {
+		// Session was closed while the subscriber was created.
+		return false
+	}
+
 	s.subscribers[id] = subscriber
 	s.subscriberIds[subscriber] = id
+	return true
 }
 
 func (s *ProxySession) DeleteSubscriber(subscriber signaling.McuSubscriber) string {
@@ -359,8 +377,8 @@ func (s *ProxySession) clearRemotePublishers() {
 }
 
 func (s *ProxySession) clearSubscribers() {
-	s.publishersLock.Lock()
-	defer s.publishersLock.Unlock()
+	s.subscribersLock.Lock()
+	defer s.subscribersLock.Unlock()
 
 	go func(subscribers map[string]signaling.McuSubscriber) {
 		for id, subscriber := range subscribers {
